@@ -68,7 +68,7 @@ ASSUMPTIONS_G = [
 
 
 def run_hint_family(prop, tier, seed, jobs, limit, run_case=None, cases=None, level='translation_validation',
-                    explanation=None, extra_assumptions=(), funcs=None, post=None):
+                    explanation=None, extra_assumptions=(), funcs=None, post=None, extra=None):
     """Generic runner for properties whose cases are (hint, conf) pairs handled by engine_g."""
     global _CASES, _PROP, _TIER, _RUNCASE
     t0 = time.time()
@@ -92,12 +92,21 @@ def run_hint_family(prop, tier, seed, jobs, limit, run_case=None, cases=None, le
         with ctx.Pool(min(jobs, max(1, n))) as pool:
             for i, out in pool.imap_unordered(_work, range(n), chunksize=4):
                 outs[i] = out
-    return report(prop, tier, seed, outs, time.time() - t0, level, explanation, extra_assumptions, funcs, post)
+    return report(prop, tier, seed, outs, time.time() - t0, level, explanation, extra_assumptions, funcs, post,
+                  extra)
 
 
-def report(prop, tier, seed, outs, wall, level, explanation, extra_assumptions, funcs, post=None):
+def report(prop, tier, seed, outs, wall, level, explanation, extra_assumptions, funcs, post=None, extra=None):
+    """extra: optional dict {findings: [...], inconclusive: [(name, conf, why)], coverage: {...},
+    assumptions: [...], wall: float} contributed by another engine (Engine X / P)."""
     known = evidence.load_known()
     violations, known_hits, inconclusive, skipped = [], [], [], []
+    if extra:
+        for f in extra.get('findings', []):
+            k = evidence.match_known(prop, f, known)
+            (known_hits if k else violations).append((f, k))
+        inconclusive.extend(extra.get('inconclusive', []))
+        wall += extra.get('wall', 0.0)
     obligations = discharged = queries = 0
     solver_s = 0.0
     unb = {'unsat': 0, 'sat': 0, 'unknown': 0}
@@ -163,6 +172,9 @@ def report(prop, tier, seed, outs, wall, level, explanation, extra_assumptions, 
     }
     if explanation:
         cov['explanation'] = explanation
+    if extra:
+        cov.update(extra.get('coverage', {}))
+        extra_assumptions = list(extra_assumptions) + list(extra.get('assumptions', []))
     if post:
         post(cov, outs)
     evidence.write(prop, tier, seed, level, cov, ASSUMPTIONS_G + list(extra_assumptions), wall, len(violations))
@@ -174,6 +186,120 @@ def report(prop, tier, seed, outs, wall, level, explanation, extra_assumptions, 
     if inconclusive:
         return 2
     return 0
+
+
+ASSUMPTIONS_X = [
+    'Engine X: CrossHair 0.0.110 + z3 trusted; contract short-circuiting switched off (callee bodies always interpreted)',
+    'Engine X: the sampler draw is a harness parameter (random.getrandbits pinned before beartype is imported)',
+    'Engine X: callable_cached bypasses its memo table for CrossHair proxies; caches warmed on concrete representatives',
+    'Engine X: represent_object / represent_pith have constant bodies (formatting is not the subject); items are int/bool/None',
+    'Engine X: harness shapes, item types and length bounds are listed per harness in coverage.engine_x.harnesses',
+]
+
+
+def run_engine_x(prop, specs, jobs):
+    """Run CrossHair harnesses; returns the `extra` dict for report()."""
+    from .xh import harness
+    from .core import write_replay
+    t0 = time.time()
+    res = harness.run_specs(prop, specs, jobs=jobs)
+    findings, inconc, rows = [], [], []
+    for sp, r in zip(specs, res):
+        rows.append({'harness': r['name'], 'verdict': r['verdict'], 'seconds': r['seconds'],
+                     'params': [f'{p}: {t}' for p, t in sp.params], 'pre': sp.pre})
+        if r['verdict'] == 'counterexample':
+            payload = {'property': prop, 'kind': 'xh', 'harness': r['name'], 'source': sp.source(),
+                       'counterexample': r['text'], 'detail': r.get('detail', '')}
+            path = write_replay(prop, payload)
+            findings.append({'kind': 'xh', 'program': 'real API under CrossHair', 'label': r['name'],
+                             'replay': path, 'detail': r.get('detail', r['text']), 'hint': r['name'], 'confkw': {}})
+        elif r['verdict'] != 'confirmed':
+            inconc.append((r['name'], {}, f'CrossHair: {r["text"][:300]}'))
+    cov = {'engine_x': {
+        'conditions': len(res), 'confirmed_over_all_paths': sum(1 for r in res if r['verdict'] == 'confirmed'),
+        'counterexamples_reproduced': len(findings), 'inconclusive': len(inconc),
+        'cpu_seconds': round(sum(r['seconds'] for r in res), 1), 'harnesses': rows,
+        'reachability_twins_refuted': sum(1 for r in res if r.get('twin') == 'counterexample')}}
+    return {'findings': findings, 'inconclusive': inconc, 'coverage': cov, 'assumptions': ASSUMPTIONS_X,
+            'wall': time.time() - t0}
+
+
+def _c03(prop, tier, seed, jobs, limit):
+    from .xh import c03x
+    extra = run_engine_x(prop, c03x.specs(tier, seed), jobs) if not limit else None
+    return run_hint_family(prop, tier, seed, jobs, limit, extra=extra,
+                           funcs=FUNCS_ENCODED['common'] + [
+                               'beartype._check.error.errmain', 'beartype._check.error._errmap',
+                               'beartype._check.error._pep.pep484585.errpep484585container',
+                               'beartype._check.error._pep.pep484585.errpep484585mapping',
+                               'beartype._check.error._pep.errpep484604', 'beartype._check.error._pep.errpep586',
+                               'beartype._check.error._pep.errpep593', 'beartype._check.cls.logic.logcls'])
+
+
+def run_x_only(prop, tier, seed, jobs, specs, explanation, funcs, assumptions=()):
+    """A check decided by Engine X alone."""
+    t0 = time.time()
+    only = os.environ.get('VERIF_ONLY')
+    if only:
+        import re
+        specs = [s for s in specs if re.search(only, s.name)]
+    extra = run_engine_x(prop, specs, jobs)
+    x = extra['coverage']['engine_x']
+    extra['coverage'].update({
+        'evaluations': x['conditions'], 'distinct_nontrivial': x['reachability_twins_refuted'],
+        'rule': 'one evaluation = one CrossHair condition (harness) explored over all paths; non-trivial = its '
+                'reachability twin was refuted (the harness body is reachable under its precondition)',
+        'samples': [{'harness': h['harness'], 'params': h['params'], 'pre': h['pre'], 'verdict': h['verdict']}
+                    for h in x['harnesses'][:5]],
+    })
+    extra['wall'] = 0.0
+    return report(prop, tier, seed, [], time.time() - t0, 'other', explanation, list(assumptions), funcs, None, extra)
+
+
+def _c17(prop, tier, seed, jobs, limit):
+    from .xh import c17x
+    return run_x_only(
+        prop, tier, seed, jobs, c17x.specs(tier, seed),
+        'CrossHair executes the real BeartypeConf.__new__/__eq__/__hash__/kwargs symbolically on creation histories '
+        'create(kw1); create(kw2)[; create(kw3)] (keyword order permuted) starting from an empty memo table. Option values '
+        'are solver variables: Union[bool,int,float,None] in [-1,2] (+0.5) for boolean / tri-state options, indices into the '
+        'real enum member lists plus non-members for enum options, indices into a list of valid and invalid classes for the '
+        'violation_* / warning options. Which options vary in a harness is enumerated (all singles and pairs thorough). '
+        'Postcondition: a creation raises BeartypeConfParamException iff the documented validity predicate fails, whatever was '
+        'created before, and nothing else escapes; typed-equal kwargs give the identical object, differing ones unequal '
+        'objects, hash agrees with ==, options read back, BeartypeConf(**conf.kwargs) is conf.',
+        ['beartype._conf.confmain', 'beartype._conf.conftest', 'beartype._conf._confoverrides', 'beartype._conf._confget'],
+        assumptions=['option values outside the listed domains (NumPy booleans, unhashable collections for '
+                     'claw_skip_package_names, hint_overrides) and thread identity are outside the claim',
+                     'environment: NO_COLOR / BEARTYPE_IS_COLOR unset'])
+
+
+def _c06(prop, tier, seed, jobs, limit):
+    from . import c06
+
+    def post(cov, outs):
+        cov['states'] = sum(getattr(o, 'paths', 0) for o in outs)
+        cov['transitions'] = cov['obligations']
+        cov['traces_validated_against_impl'] = cov['states']
+        cov['feasible_aliasing_paths'] = cov['states']
+    return run_hint_family(
+        prop, tier, seed, jobs, limit, run_case=c06.run_case, cases=c06.cases(tier, seed), level='model_checking',
+        explanation='Engine P: the real claw registry functions (hook_packages, _blacklist_packages, _whitelist_packages_all/_some, '
+                    'get_package_conf_or_none, is_package_blacklisted, iter_packages_trie, beartyping, add/remove path hook) run '
+                    'on str-subclass proxies whose equality is a z3 term; every dict comparison forks on the feasible outcomes, so '
+                    'each enumerated history skeleton is explored for every aliasing pattern of its symbolic labels. On every '
+                    'feasible path the path condition must entail that each operation raised iff the declarative model conflicts, '
+                    'that the final query equals the nearest registered ancestor (else beartype_all, unless skipped) and that after '
+                    'a beartyping block the path hook is present iff something remains registered.',
+        funcs=['beartype.claw._package.clawpkgmain', 'beartype.claw._package.clawpkgtrie',
+               'beartype.claw._package.clawpkgcontext', 'beartype.claw._package._clawpkgmake',
+               'beartype.claw._clawstate', 'beartype.claw._importlib.clawimpmain'],
+        extra_assumptions=['names are valid dotted identifiers (make_package_names_from_args replaced by a pass-through; syntax validation is outside the claim)',
+                           'symbolic labels differ from every built-in blacklisted package name',
+                           'skip lists are exercised by calling _blacklist_packages directly (the glue line in hook_packages is not)',
+                           'configurations are 3 concrete, pairwise different BeartypeConf objects; equality patterns among them are enumerated by index',
+                           'bounds: <= 2 operations (quick) / <= 3 (thorough) + beartyping blocks, names of <= 2 / <= 3 labels, query of <= 3 labels'],
+        post=post)
 
 
 def _simple(prop, tier, seed, jobs, limit):
@@ -227,7 +353,9 @@ RUNNERS = {
     'C18': _c18,
     'C01': _simple,
     'C02': _simple,
-    'C03': _simple,
+    'C03': _c03,
+    'C06': _c06,
+    'C17': _c17,
     'C09': _simple,
     'C10': _simple,
 }
